@@ -848,3 +848,377 @@ M.contract(P_PARSER + ':_Parser.__init__',
                'the prefix operator names are the keys of the prefix operator table': lambda self, grammar:
                self.prefix_operator_names.mapping is grammar.prefix_operators,
            }, raises_only=())
+
+# ============================================================================== (e) the recursive descent: BOUNDED
+# _Parser.{parse, parse_w_maybe_infix_ops, parse_w_infix_ops, infix_op_sequence_for_single_op,
+# parse_mandatory_primitive} are mutually recursive over the token cursor; they are NOT proved.  Stand-in
+# (DESIGN 2.6): every expression tree up to a depth/width bound, with redundant parentheses, every single
+# permitted line break / doubled space, in each of the six host types, through the REAL parsers
+# (`parsers(b).full` / `.simple`), evaluated through the real sdv -> ddv -> adv -> primitive chain, compared
+# with the reference reading and lazy evaluation of contracts/c06_reference.py; damaged variants must give
+# what the reference gives (a syntax error, or an expression that ends early), never another reading.
+
+from contracts import c06_reference as ref
+
+# witness classes of the known findings (decided on the INPUT alone, see notes/C06.md)
+KNOWN_CLASS_1 = 'C06-1 (inside parentheses: line break in front of an && that follows an || of the same group)'
+KNOWN_CLASS_2 = 'C06-2 (outside parentheses: line break in front of an && that no || precedes)'
+
+
+def _classify(source, simple):
+    """the witness class of an input, from its text alone: which known finding (if any) it is an instance of"""
+    toks = ref.tokenize(source)
+    depth = 0
+    or_seen = {0: False}          # per open group: has an || been seen at that level
+    for i, t in enumerate(toks):
+        if t.is_('('):
+            depth += 1
+            or_seen[depth] = False
+        elif t.is_(')'):
+            depth = max(0, depth - 1)
+        elif t.is_(OR):
+            or_seen[depth] = True
+        elif t.is_(AND) and i > 0 and toks[i - 1].line != t.line:
+            if depth > 0 and or_seen[depth]:
+                return KNOWN_CLASS_1
+            if depth == 0 and not or_seen[0] and not simple:
+                return KNOWN_CLASS_2
+    return None
+
+
+def _dump_obj(o, depth=0):
+    import re
+    if isinstance(o, (str, int, bool, type(None))):
+        return o
+    if isinstance(o, (list, tuple)):
+        return tuple(_dump_obj(x, depth + 1) for x in o)
+    if hasattr(o, '__dict__') and depth < 8:
+        return (type(o).__name__,) + tuple((k, _dump_obj(v, depth + 1)) for k, v in sorted(vars(o).items()))
+    return re.sub(r' at 0x[0-9a-f]+', '', str(o))
+
+
+def _dump_node(n):
+    return (n.header, n.data, _dump_obj(list(n.details)), tuple(_dump_node(c) for c in n.children))
+
+
+def _leaf_nodes(n, combinators, out):
+    if n.header in combinators:
+        for c in n.children:
+            _leaf_nodes(c, combinators, out)
+    else:
+        out.append(_dump_node(n))
+    return out
+
+
+def _flatten(t):
+    """same-operator nesting flattened (redundant parentheses around a same-operator operand)"""
+    if t[0] == 'leaf':
+        return 'L'
+    if t[0] == 'not':
+        return ('not', _flatten(t[1]))
+    out = []
+    for c in t[1]:
+        f = _flatten(c)
+        if isinstance(f, tuple) and f[0] == t[0]:
+            out += f[1]
+        else:
+            out.append(f)
+    return (t[0], out)
+
+
+class _Host:
+    """one host type: its real parsers, a model, primitives that are true / false on the model"""
+
+    def __init__(self, name, module, model, true_pool, false_pool, is_transformer=False):
+        self.name, self.module, self.mk_model = name, module, model
+        self.pools = {True: true_pool, False: false_pool}
+        self.is_transformer = is_transformer
+        self.operators = [SEQUENCE] if is_transformer else [OR, AND]
+        self.lang = ref.Language(self.operators, None if is_transformer else NOT,
+                                 list(true_pool) + list(false_pool))
+        self._leaf_cache = {}
+
+    # ---- the real code
+    def parse(self, source, simple, must_be_on_current_line):
+        """-> ('ok', sdv, remaining token texts) | ('syntax-error', message)   (anything else propagates)"""
+        from exactly_lib.section_document.parse_source import ParseSource
+        ps = ParseSource(source)
+        parsers = self.module.parsers(must_be_on_current_line)
+        try:
+            sdv = (parsers.simple if simple else parsers.full).parse(ps)
+        except SIIAE as e:
+            return ('syntax-error', str(e.error_message))
+        return ('ok', sdv, ps.remaining_source.split() if not ps.is_at_eof else [])
+
+    def skeleton(self, sdv):
+        from exactly_lib.impls.types.string_transformer.impl import sequence_sdv
+        if type(sdv) is combinator_sdvs.Conjunction:
+            return ('leafless', AND, [self.skeleton(o) for o in sdv._operands])
+        if type(sdv) is combinator_sdvs.Disjunction:
+            return ('leafless', OR, [self.skeleton(o) for o in sdv._operands])
+        if type(sdv) is combinator_sdvs.Negation:
+            return ('not', self.skeleton(sdv._operand))
+        if type(sdv) is sequence_sdv.StringTransformerSequenceSdv:
+            return ('leafless', SEQUENCE, [self.skeleton(o) for o in sdv.transformers])
+        return ('leaf', None)
+
+    def primitive_of(self, sdv):
+        from exactly_lib.util.symbol_table import empty_symbol_table
+        return sdv.resolve(empty_symbol_table()).value_of_any_dependency(None).primitive(None)
+
+    def run(self, sdv):
+        """-> (value, [dumps of the primitives' nodes, in order])"""
+        prim = self.primitive_of(sdv)
+        if self.is_transformer:
+            out = prim.transform(self.mk_model()).contents().as_str
+            return out, _leaf_nodes(prim.structure().render(), (SEQUENCE,), [])
+        r = prim.matches_w_trace(self.mk_model())
+        return r.value, _leaf_nodes(r.trace.render(), (OR, AND, NOT), [])
+
+    def leaf(self, text):
+        """a primitive on its own, through the real parser: (value / transformer, node dump)"""
+        if text not in self._leaf_cache:
+            got = self.parse(text, True, True)
+            assert got[0] == 'ok' and got[2] == [], (self.name, text, got)
+            if self.is_transformer:
+                prim = self.primitive_of(got[1])
+                self._leaf_cache[text] = (prim, _leaf_nodes(prim.structure().render(), (SEQUENCE,), []))
+            else:
+                self._leaf_cache[text] = self.run(got[1])
+        return self._leaf_cache[text]
+
+    # ---- the reference
+    def expected_run(self, tree):
+        from exactly_lib.impls.types.string_source import constant_str
+        if self.is_transformer:
+            s = self.mk_model().contents().as_str
+            nodes = []
+            for text in ref.leaves_in_order(tree):
+                prim, dump = self.leaf(text)
+                s = prim.transform(constant_str.string_source(s, None)).contents().as_str
+                nodes += dump
+            return s, nodes
+        value, seen = ref.evaluate(tree, {t: self.leaf(t)[0] for t in ref.leaves_in_order(tree)})
+        return value, [d for t in seen for d in self.leaf(t)[1]]
+
+
+def _skeleton_of_tree(t):
+    if t[0] == 'leaf':
+        return ('leaf', None)
+    if t[0] == 'not':
+        return ('not', _skeleton_of_tree(t[1]))
+    return ('leafless', t[0], [_skeleton_of_tree(c) for c in t[1]])
+
+
+def _flat_skeleton(s):
+    if s[0] == 'leaf':
+        return 'L'
+    if s[0] == 'not':
+        return ('not', _flat_skeleton(s[1]))
+    out = []
+    for c in s[2]:
+        f = _flat_skeleton(c)
+        if isinstance(f, tuple) and f[0] == s[1]:
+            out += f[1]
+        else:
+            out.append(f)
+    return (s[1], out)
+
+
+def _hosts():
+    from exactly_lib.impls.types.string_source import constant_str
+    matchers, transformers = _grammar_modules()
+    ints_t = ['== 5', '>= 5', '<= 5', '!= 4', '> 4', '< 6', '>= 4', '<= 6', '!= 6', 'constant true']
+    ints_f = ['!= 5', '> 5', '< 5', '== 4', '>= 6', '<= 4', '== 6', '> 6', '< 4', 'constant false']
+    text = lambda: constant_str.string_source('abcABC\nab\n', None)
+    return [
+        _Host('integer-matcher', matchers['integer-matcher'], lambda: 5, ints_t, ints_f),
+        _Host('line-matcher', matchers['line-matcher'], lambda: (5, 'abc'),
+              ['line-num ' + x for x in ints_t[:-1]] + ['constant true', 'line-num ( == 4 || == 5 )'],
+              ['line-num ' + x for x in ints_f[:-1]] + ['constant false', 'line-num ! == 5']),
+        _Host('string-matcher', matchers['string-matcher'], text,
+              ['num-lines ' + x.replace('5', '2').replace('4', '1').replace('6', '3') for x in ints_t[:-1]]
+              + ['constant true'],
+              ['num-lines ' + x.replace('5', '2').replace('4', '1').replace('6', '3') for x in ints_f[:-1]]
+              + ['is-empty', 'constant false']),
+        _Host('file-matcher', matchers['file-matcher'], lambda: None, ['constant true'], ['constant false']),
+        _Host('files-matcher', matchers['files-matcher'], lambda: None, ['constant true'], ['constant false']),
+        _Host('string-transformer', transformers['string-transformer'], text,
+              ['replace a b', 'replace b c', 'char-case -to-upper', 'replace B d', 'replace c a', 'identity',
+               'char-case -to-lower', 'replace d B', 'strip'], [], is_transformer=True),
+    ]
+
+
+def _leaf_texts(host, truth):
+    """distinct primitives (as far as the pools go), true / false on the model as `truth` says"""
+    used = {True: 0, False: 0}
+    out = []
+    for v in truth:
+        pool = host.pools[v]
+        out.append(pool[used[v] % len(pool)])
+        used[v] += 1
+    return out
+
+
+def _compare(host, source, simple, must_be_on_current_line):
+    """None if the real parser + evaluation agree with the reference on this source, else a description"""
+    toks = ref.tokenize(source)
+    first_line_empty = not source.split('\n')[0].strip()
+    try:
+        if must_be_on_current_line and first_line_empty:
+            raise ref.Malformed('nothing on the current line')
+        tree, n_read = ref.read(host.lang, toks, simple)
+        expected = ('ok', tree, [t.text if not t.quoted else '"%s"' % t.text for t in toks[n_read:]])
+    except ref.Malformed as e:
+        expected = ('syntax-error', str(e))
+    try:
+        actual = host.parse(source, simple, must_be_on_current_line)
+    except Exception as e:
+        return {'expected': expected[0], 'actual': 'exception that is not a syntax error: %r' % e}
+    if expected[0] != actual[0]:
+        return {'expected': repr(expected)[:300], 'actual': repr(actual[:1] + actual[2:])[:300]}
+    if expected[0] == 'syntax-error':
+        return None
+    if expected[2] != actual[2]:
+        return {'expected': 'expression ends in front of %r' % (expected[2],),
+                'actual': 'ends in front of %r' % (actual[2],)}
+    es, as_ = _flat_skeleton(_skeleton_of_tree(expected[1])), _flat_skeleton(host.skeleton(actual[1]))
+    if es != as_:
+        return {'expected': 'structure %r' % (es,), 'actual': 'structure %r' % (as_,)}
+    ev, av = host.expected_run(expected[1]), host.run(actual[1])
+    if ev != av:
+        return {'expected': 'value %r, primitives applied: %r' % (ev[0], [d[0] for d in ev[1]]),
+                'actual': 'value %r, primitives applied: %r' % (av[0], [d[0] for d in av[1]])}
+    return None
+
+
+_REPLAY_BOUNDED = '''\
+import warnings; warnings.simplefilter('ignore')
+from contracts import C06_expression as m
+host = [h for h in m._hosts() if h.name == %(host)r][0]
+diff = m._compare(host, %(source)r, %(simple)r, %(mbocl)r)
+print('source:', %(source)r)
+print('parser: %(host)s', 'simple' if %(simple)r else 'full', 'must_be_on_current_line=%(mbocl)r')
+print('difference to the reference reading:', diff)
+sys.exit(1 if diff else 0)
+'''
+
+
+def _truth_vectors(n, how):
+    import itertools
+    if how == 'all':
+        return [list(v) for v in itertools.product((True, False), repeat=n)]
+    vs = [[i % 2 == 0 for i in range(n)], [i % 2 == 1 for i in range(n)]]
+    if how == 'four':
+        vs += [[True] * n, [False] * n]
+    out = []
+    for v in vs:
+        if v not in out:
+            out.append(v)
+    return out
+
+
+class _Plan:
+    def __init__(self, depth, width, extra_parens, pairs=False, doubled_spaces=True, vectors='two', damaged=True):
+        self.depth, self.width, self.extra_parens, self.pairs = depth, width, extra_parens, pairs
+        self.doubled_spaces, self.vectors, self.damaged = doubled_spaces, vectors, damaged
+
+    def __str__(self):
+        return ('trees of depth <= %d, width <= %d over distinct primitives, every truth assignment (plain text); '
+                'for %s truth assignments: <= %d redundant pairs of parentheses x (every single%s permitted line '
+                'break%s, every not permitted one)%s'
+                % (self.depth, self.width, self.vectors, self.extra_parens, ' / pair of' if self.pairs else '',
+                   ' / doubled space' if self.doubled_spaces else '',
+                   '; every damaged variant of the plain text' if self.damaged else ''))
+
+
+def _run_standin(ctx, host, plans):
+    import itertools
+    n_cases = 0
+    seen_sources = set()
+    failures = {}      # class -> list of failure dicts
+    per_class = {}
+
+    def check(source, simple, mbocl, what):
+        nonlocal n_cases
+        key = (source, simple, mbocl)
+        if key in seen_sources:
+            return
+        seen_sources.add(key)
+        n_cases += 1
+        diff = _compare(host, source, simple, mbocl)
+        if diff is not None:
+            cls = _classify(source, simple) or 'unclassified'
+            per_class[cls] = per_class.get(cls, 0) + 1
+            if len(failures.setdefault(cls, [])) < 3:
+                failures[cls].append(dict(
+                    diff, input='%s: %s parser, %s: %r' % (cls.split(' ')[0], 'simple' if simple else 'full',
+                                                         what, source),
+                    replay=_REPLAY_BOUNDED % dict(host=host.name, source=source, simple=simple, mbocl=mbocl)))
+
+    for plan in plans:
+        for shape in ref.shapes(plan.depth, plan.width, host.operators, with_not=not host.is_transformer):
+            n = ref.count_leaves(shape)
+            structural = _truth_vectors(n, plan.vectors)
+            for truth in ([[True] * n] if host.is_transformer else _truth_vectors(n, 'all')):
+                tree = ref.with_leaves(shape, _leaf_texts(host, truth))
+                plain = ref.render(ref.unparse(tree), [' '] * 10 ** 3)
+                # every truth assignment: the plain text, full parser (+ the simple parser on the parenthesised text)
+                check(plain, False, True, 'plain')
+                check('( ' + plain + ' )', True, True, 'plain in parentheses')
+                if truth not in structural and not host.is_transformer:
+                    continue
+                node_paths = list(ref.nodes(tree))
+                paren_sets = [()]
+                for k in range(1, plan.extra_parens + 1):
+                    paren_sets += list(itertools.combinations_with_replacement(node_paths, k))
+                for extra in paren_sets:
+                    toks = ref.unparse(tree, extra)
+                    for name, source in ref.layouts(toks, host.operators, pairs=plan.pairs and len(extra) < 2):
+                        if name.startswith('double-space') and not plan.doubled_spaces:
+                            continue
+                        check(source, False, True, name)
+                        if name == 'plain':
+                            check(source, True, True, 'simple context')          # reads the first PRIM only
+                            check('\n' + source, False, False, 'on the line after')
+                            check('\n' + source, False, True, 'on the line after, must be on current line')
+                            check(source + ' ' + host.pools[True][0], False, True, 'followed by a primitive')
+                        elif name.startswith('line-break'):
+                            check('( ' + source + ' )', True, True, name + ' in parentheses, simple context')
+                    if not extra and plan.damaged:
+                        ops = host.operators + ([] if host.is_transformer else [NOT])
+                        for name, source in ref.malformed_variants(toks, ops):
+                            check(source, False, True, 'damaged: ' + name)
+                            check('( ' + source + ' )', True, True, 'damaged in parentheses: ' + name)
+    ordered = failures.get('unclassified', []) + [fs[0] for cls, fs in sorted(failures.items())
+                                                  if cls != 'unclassified']
+    ctx.bounded_result(
+        function='%s _Parser.parse' % host.name,
+        bound=' + '.join(str(p) for p in plans),
+        cases=n_cases, exhaustive=True, failures=ordered,
+        note='real parsers(b).full/.simple of the host type + real resolve/value_of_any_dependency/primitive/'
+             'matches_w_trace (transform), against contracts/c06_reference.py; stands in for _Parser.{parse, '
+             'parse_w_maybe_infix_ops, parse_w_infix_ops, infix_op_sequence_for_single_op, '
+             'parse_mandatory_primitive}; failures by witness class: %r' % (per_class,))
+
+
+def _plans(host_name, tier):
+    if tier != 'thorough':
+        return [_Plan(2, 2, 1)]
+    plans = [_Plan(2, 2, 2, pairs=True, vectors='four'), _Plan(2, 3, 1, pairs=True)]
+    if host_name in ('integer-matcher', 'string-matcher'):
+        # (the descent is the same generic code for every host type; the deepest bound only for two of them)
+        plans.append(_Plan(3, 2, 0, doubled_spaces=False))
+    return plans
+
+
+def _standin_for(host_name):
+    def run(ctx):
+        host = [h for h in _hosts() if h.name == host_name][0]
+        _run_standin(ctx, host, _plans(host_name, ctx.tier))
+
+    return run
+
+
+for _h in ('integer-matcher', 'line-matcher', 'string-matcher', 'file-matcher', 'files-matcher', 'string-transformer'):
+    M.bounded('recursive-descent: ' + _h)(_standin_for(_h))
